@@ -135,3 +135,34 @@ def check_solve(ns, seeds, tol=1e-9):
                                     max_err=float(np.abs(b2 - want).max()),
                                     how='contracts.c03_concrete.check_solve: real emg3d.core.solve vs numpy.linalg.solve')
     return dict(reproduced=False, cases=cases)
+
+
+def check_dispatch(shapes=((4, 4, 4), (2, 4, 6), (4, 2, 2)), seed=0):
+    """solver.smoothing on real objects == the kernels called directly with the bindings stated in c03_dispatch"""
+    import types
+    import emg3d
+    from emg3d import core, solver
+    cases = 0
+    for shape in shapes:
+        h, e, s, eta, zeta = make_problem(shape, seed)
+        for lr in range(8):
+            for nu in (1, 2):
+                cases += 1
+                grid = types.SimpleNamespace(h=h, shape_cells=shape)
+                model = types.SimpleNamespace(eta_x=eta['x'], eta_y=eta['y'], eta_z=eta['z'], zeta=zeta, grid=grid)
+                sf = types.SimpleNamespace(fx=s['x'], fy=s['y'], fz=s['z'])
+                got = {c: e[c].copy() for c in 'xyz'}
+                ef = types.SimpleNamespace(fx=got['x'], fy=got['y'], fz=got['z'])
+                solver.smoothing(model, sf, ef, nu, lr)
+                dirs = {0: '', 1: 'x', 2: 'y', 3: 'z', 4: 'yz', 5: 'xz', 6: 'xy', 7: 'xyz'}[lr]
+                dirs = ''.join(d for d in dirs if shape['xyz'.index(d)] != 2)
+                want = {c: e[c].copy() for c in 'xyz'}
+                seq = [core.gauss_seidel] if not dirs else [getattr(core, f'gauss_seidel_{d}') for d in dirs]
+                for k in seq:
+                    k(want['x'], want['y'], want['z'], s['x'], s['y'], s['z'], eta['x'], eta['y'], eta['z'], zeta, h[0], h[1], h[2], nu)
+                for c in 'xyz':
+                    if not np.array_equal(got[c], want[c]):
+                        return dict(reproduced=True, cases=cases, shape=shape, lr_dir=lr, nu=nu, component=c,
+                                    clause='smoothing() differs from the stated kernel sequence / argument binding',
+                                    how='contracts.c03_concrete.check_dispatch')
+    return dict(reproduced=False, cases=cases)
